@@ -267,8 +267,10 @@ def check(an: Analysis) -> None:
         g = an.cfg(f)
         p = f.param_names()[0]
         ob.inst(f, None)
+        dleaf = Deps(prog, f)
         for r in [r for r in f.own_nodes() if isinstance(r, ast.Return)]:
-            if not is_name(unwrap(r.value), p):
+            rv = unwrap(r.value)
+            if not (is_name(rv, p) or (isinstance(rv, ast.Name) and dleaf.origins(rv) == {f"param:{p}"})):
                 ob.fail(f, r, "a leaf validator returns something else than the validated value: the stored attribute would differ from what was supplied")
         w = g.search([g.entry], lambda n: n.kind == "exit-return", skip_node=lambda n: n.kind == "return", skip_edge=normal_only)
         if w is not None:
